@@ -44,7 +44,7 @@ CLAIMED = {
    "Proof of function contracts: the escape-graph operations are extensive (they never lower a status nor remove a node or edge) and Merge is an upper bound: AddNode adds exactly the missing node with its intrinsic status and keeps the graph well formed; computeEdgeClosure propagates the source's status to the target, never lowers a status, keeps the node set, leaves edges untouched and CLOSES the graph again (every edge that was closed before, and the edge a->b, is closed afterwards; worklist invariant over a map iterated in arbitrary order); AddEdge adds the edge, closes it and keeps closed edges closed; MergeNodeStatus raises n to at least s and keeps closed edges closed; Edges lists only edges of the graph; Merge(g, h) leaves every node of h at least as escaped in g as in h and lowers nothing in g (for disjoint well-formed graphs; object-level frames of all operations proved); LessEqual answers true only if the statuses are pointwise ordered. Idempotence/commutativity/associativity of Merge as graph equalities, the edge part of LessEqual (bit masks) and monotonicity of the ~40 transfer cases are not proved.",
    "Trusted: as C05; assumed deps contracts (fmt.Sprintf modifies nothing)."),
  "C16": ("DESIGN.md 4/C16",
-   "Proof of function contracts, for all inputs and all iterations: stackCompare is the lexicographic comparison of (Block, Ins) sequences (functional correctness, safety, termination) and, as lemmas derived from that contract only, a total preorder compatible with content equality (reflexive, antisymmetric, four transitivity laws); stackSetUnion returns a strictly sorted (duplicate-free) set containing exactly the stacks of both arguments, reports sameAsA exactly when every stack of b already occurs in a, and terminates (three merge loops with inductive invariants); stackPushed returns s ++ [(block, ins)] in a fresh array; dataflowTransfer is the identity on non-defer instructions, resets on RunDefers and reports `repeated` exactly when some incoming stack already contains the defer. Equality of the computed sets with the sets of path-wise defer sequences (MOP = MFP for this distributive framework) and termination of the outer fixpoint are not proved.",
+   "Proof of function contracts, for all inputs and all iterations: stackCompare is the lexicographic comparison of (Block, Ins) sequences (functional correctness, safety, termination) and, as lemmas derived from that contract only, a total preorder compatible with content equality (reflexive, antisymmetric, four transitivity laws); stackSetUnion returns a strictly sorted (duplicate-free) set containing exactly the stacks of both arguments, reports sameAsA exactly when every stack of b already occurs in a, and terminates (three merge loops with inductive invariants); stackPushed returns s ++ [(block, ins)] in a fresh array; dataflowTransfer is the identity on non-defer instructions, resets on RunDefers and reports `repeated` exactly when some incoming stack already contains the defer. worklist discipline of the fixpoint driver AnalyzeFunction: a change flag that is set when the propagation to the successors of a block ends is still set at the end of that block's iteration, and the fixpoint loop is left only when no block of the traversal order is flagged. Equality of the computed sets with the sets of path-wise defer sequences (MOP = MFP for this distributive framework) and termination of the outer fixpoint are not proved.",
    "Trusted: as C05; sort.Slice is havoc (the sortedness of the Defer case's result after sort+dedupe is not claimed); heap well-typedness."),
  "C17": ("DESIGN.md 4/C17",
    "Proof of function contracts: addInEdge handles every kind of graph node (closed world of 11) without panicking and records the in-edge; updateEdgeInfo records the edge outgoing with the mark's tuple index AND incoming at the destination (presence in both directions); by-position edges are recorded in both maps (shared with C09). The clause `same tuple index in both directions` is a known finding (5.5). Call-site / closure registration and global location sets are not yet under contract.",
